@@ -25,7 +25,7 @@ const vpLabel = "a signature is accepted only if RSA verification against the em
 // framing - is a forgery and must be rejected.
 func VP_C18_verify() {
 	key := vp.Bytes(vp.Choice(4))
-	sig := vp.Bytes(vp.Choice(4))
+	sig := vp.Bytes(vpSigLen())
 	ok := VerifySignature(key, sig)
 	if vp.Symbolic() {
 		verified := vp.StubArgIs("rsa.verify.okkey", pubKey)
@@ -43,7 +43,7 @@ func VP_C18_verify() {
 // (no outcome remembered between calls can stand in for it).
 func VP_C18_verify_again() {
 	key := vp.Bytes(2)
-	sig := vp.Bytes(vp.Choice(3))
+	sig := vp.Bytes(vpSigLen())
 	first := VerifySignature(key, sig)
 	if vp.Symbolic() {
 		vp.Assume(!first || !vp.StubArgIs("rsa.verify.okkey", pubKey)) // the first presentation was not a genuine one
@@ -68,7 +68,7 @@ func VP_C18_verify_again() {
 // embedded services key; a success against any other key (its own, say) is not enough.
 func VP_C18_pubkey_verify() {
 	var p PublicKey
-	sig := vp.Bytes(vp.Choice(3))
+	sig := vp.Bytes(vpSigLen())
 	ms := vp.Int64()
 	vp.Assume(ms >= 0 && ms < 1<<44)
 	if vp.Bool() {
@@ -158,7 +158,7 @@ func vpSelfSigned() {
 // needs an RSA success against the services key made in that call.
 func VP_C18_pubkey_reuse() {
 	if vp.Symbolic() {
-		sig := vp.Bytes(2)
+		sig := vp.Bytes(vpSigLen())
 		ms := int64(1) << 43
 		var p PublicKey
 		var w1, w2 bytes.Buffer
@@ -209,4 +209,12 @@ func VP_C18_pubkey_reuse() {
 	_, err = p.ReadFrom(&w2)
 	vp.Assert(err == nil && !p.Verify(), vpLabel)
 	vp.Cover("end")
+}
+
+// vpSigLen: signature lengths incl. those of real keys (the services key is
+// 4096 bits: 512 bytes; 256 for a 2048-bit key), so that a length check in
+// front of the verification does not hide what follows it.
+func vpSigLen() int {
+	vp.SizeBound(600)
+	return []int{0, 1, 2, 256, 512, 513}[vp.Choice(6)]
 }
